@@ -39,7 +39,7 @@ prop("C12",
      rule="generated documents (arrays/objects of width 0..6, nested, escaped keys, whitespace), 1/5 with trailing bytes, 1/3 mutated x {to_array_iter, to_object_iter} x {&[u8], &FastStr, &Bytes} + unchecked iterators and LazyValue::into_*_iter on the well-formed ones; each iterator polled 3 times past its end; transcript (spans, decoded keys) compared with the reference iterator",
      assumptions=["invalid UTF-8 anywhere in the input is reported by the first poll (as the implementation does)"])
 prop("C14",
-     rule="generated documents (one in three may repeat member names) mutated once (9 mutation kinds) x up to 5 paths x 6 checked get carriers, every prefix of small documents, get_many on the malformed stream, get_many on well-formed documents that repeat member names (every filled slot is exactly one well-formed value inside the input, no panic: op manyfrag; F37), checked iterators; each returned span compared with the reference get on arbitrary bytes (Spec.Ref.ref_get = decision procedure of WfPrefix)",
+     rule="generated documents (one in three may repeat member names) mutated once (9 mutation kinds) x up to 5 paths x 6 checked get carriers, every prefix of small documents, get_many on the malformed stream, the enumerated number grammar (integer parts of 1..25, 30..34, 62..66, 95..97 digits x 35 well-formed and damaged tails) as selected value, as a member in front of it and as iterator item, get_many on well-formed documents that repeat member names (every filled slot is exactly one well-formed value inside the input, no panic: op manyfrag; F37), checked iterators; each returned span compared with the reference get on arbitrary bytes (Spec.Ref.ref_get = decision procedure of WfPrefix)",
      assumptions=[])
 
 prop("C09",
@@ -77,7 +77,7 @@ prop("C15",
      rule="random operation histories (3..25 steps) over the public mutation API: new values (parsed documents, json!, From, empty), clone of a subtree, drop, pointer read, and at a random (sometimes perturbed) path: push/pop/insert/remove/swap_remove/truncate/clear/len on arrays, insert/remove/get/contains_key/entry().or_insert/IndexMut on objects, assignment, take; donors are clones of subtrees of other live values; after every step the result and the sorted dump of every live value are compared with the reference model run on the same history",
      assumptions=["Rust ownership: two owned Values do not alias (why the reference can be a tree model)", "documents without duplicate names (F6 otherwise)"])
 prop("C16",
-     rule="the same random histories (3..30 steps) with, after every step, for every arena reachable from a live value: Arc strong count (hook) = number of live root-kind values pointing into it (walked through owned containers); then all values dropped in a random order with the survivors read in between",
+     rule="the same random histories (3..30 steps) with, after every step, for every arena reachable from a live value: Arc strong count (hook) = number of live root-kind values pointing into it (walked through owned containers); then all values dropped in a random order; after every drop each survivor must read exactly as it did while everything was alive, and nothing may read as freed memory (the harness allocator overwrites freed blocks with 0xDD)",
      assumptions=["Arc's counter is atomic (std); cross-thread schedules are not explored by this check", "the counting allocator check of 'all memory released' is left to the thorough tier"])
 
 prop("C04", guards=True,
